@@ -506,6 +506,23 @@ def run(chk):
         p = os.path.join(wdir, "corpus_pt_%d.wb" % ci)
         open(p, "w").write(json.dumps(cw))
         docs.append((p, "structure", "D32 corpus: depth-surface point with %d coordinates" % len(pt), None, 0))
+    for ci, (key, val) in enumerate([("Euler angles z-x-z", [[10.0, 20.0]]), ("Euler angles z-x-z", [[]]), ("Euler angles z-x-z", [[10.0, 20.0, 30.0, 40.0]]),
+                                     ("rotation matrices", [[[1.0, 0.0], [0.0, 1.0, 0.0], [0.0, 0.0, 1.0]]]), ("rotation matrices", [[[1.0, 0.0, 0.0], [0.0, 1.0, 0.0]]])]):
+        # nested arrays of fixed length (a triple of Euler angles, the rows of a rotation matrix): the schema fixes their length
+        gm = {"model": "uniform", "compositions": [0], "grain sizes": [0.5], key: val}
+        cw = {"version": "1.1", "features": [{"model": ("continental plate", "oceanic plate", "mantle layer")[ci % 3], "name": "g", "coordinates": [[-1e5, -1e5], [1e5, -1e5], [1e5, 1e5], [-1e5, 1e5]],
+                                               "max depth": 1e5, "grains models": [gm]}]}
+        p = os.path.join(wdir, "corpus_nested_%d.wb" % ci)
+        open(p, "w").write(json.dumps(cw))
+        bases.append((p, cw, ["%s %s %s %s 1 3 0 2" % (common.fhex(1e4), common.fhex(1e3), common.fhex(1000e3 - 5e4), common.fhex(5e4))]))
+        docs.append((p, "structure", "corpus: %s = %s" % (key, json.dumps(val)), True, len(bases) - 1))
+    for ci, ridge in enumerate([[[[0.0, 0.0]]], [[]]]):
+        cw = {"version": "1.1", "features": [{"model": "oceanic plate", "name": "o", "coordinates": [[-1e5, -1e5], [1e5, -1e5], [1e5, 1e5], [-1e5, 1e5]], "max depth": 1e5,
+                                               "temperature models": [{"model": "plate model", "max depth": 1e5, "spreading velocity": 0.05, "ridge coordinates": ridge}]}]}
+        p = os.path.join(wdir, "corpus_ridge_%d.wb" % ci)
+        open(p, "w").write(json.dumps(cw))
+        bases.append((p, cw, ["%s %s %s %s %s" % (common.fhex(1e4), common.fhex(1e3), common.fhex(1000e3 - 5e4), common.fhex(5e4), TOK)]))
+        docs.append((p, "structure", "corpus: ridge coordinates = %s" % json.dumps(ridge), None, len(bases) - 1))
     for ci, (fm, lith) in enumerate([("oceanic plate", "granite"), ("subducting plate", "per[idotite"), ("oceanic plate", "")]):
         # D35 corpus: an option value that is a free string in the schema but one of four names in the code
         cm = {"model": "tian water content", "compositions": [0], "lithology": lith, "initial water content": 2.0, "cutoff pressure": 10.0}
